@@ -5,6 +5,7 @@ package main
 import (
 	"fmt"
 	"math/big"
+	"math/bits"
 	"strings"
 )
 
@@ -135,6 +136,27 @@ func (p *printer) signed(t *Term) {
 	fmt.Fprintf(p.sb, ")) (ite (>= ?x %s) (- ?x %s) ?x))", pow2(w-1), pow2(w))
 }
 
+// bitwise spells a bitwise operation out bit by bit (small widths only).
+func (p *printer) bitwise(op string, a, b *Term, w int) {
+	p.sb.WriteString("(let ((?a ")
+	p.expr(a)
+	p.sb.WriteString(") (?b ")
+	p.expr(b)
+	p.sb.WriteString(")) (+ 0")
+	// only bits that may be set in the result
+	for i := 0; i < w; i++ {
+		oa, ob := maybeOnes(a)>>uint(i)&1, maybeOnes(b)>>uint(i)&1
+		if op == "and" && (oa == 0 || ob == 0) {
+			continue
+		}
+		if op != "and" && oa == 0 && ob == 0 {
+			continue
+		}
+		fmt.Fprintf(p.sb, " (ite (%s (= (mod (div ?a %s) 2) 1) (= (mod (div ?b %s) 2) 1)) %s 0)", op, pow2(i), pow2(i), pow2(i))
+	}
+	p.sb.WriteString("))")
+}
+
 func (p *printer) wrapOpen() { p.sb.WriteString("(mod ") }
 func (p *printer) wrapClose(w int) {
 	p.sb.WriteString(" ")
@@ -162,6 +184,13 @@ func (p *printer) int(t *Term) {
 	case OpEq:
 		p.app("=", t.args...)
 	case OpAdd:
+		if w <= 64 {
+			ua, ub := upper(t.args[0]), upper(t.args[1])
+			if ua+ub >= ua && ua+ub <= mask(w) {
+				p.app("+", t.args...)
+				return
+			}
+		}
 		p.wrapOpen()
 		p.app("+", t.args...)
 		p.wrapClose(w)
@@ -170,6 +199,12 @@ func (p *printer) int(t *Term) {
 		p.app("-", t.args...)
 		p.wrapClose(w)
 	case OpMul:
+		if w <= 64 {
+			if hi, lo := bits.Mul64(upper(t.args[0]), upper(t.args[1])); hi == 0 && lo <= mask(w) {
+				p.app("*", t.args...)
+				return
+			}
+		}
 		p.wrapOpen()
 		p.app("*", t.args...)
 		p.wrapClose(w)
@@ -178,6 +213,10 @@ func (p *printer) int(t *Term) {
 		p.app("-", t.args...)
 		p.wrapClose(w)
 	case OpUDiv:
+		if t.args[1].IsConst() && (t.args[1].val != 0 || t.args[1].hi != 0) {
+			p.app("div", t.args...)
+			return
+		}
 		// SMT-LIB bvudiv by zero = all ones; Go panics before (guarded by executor)
 		p.sb.WriteString("(ite (= ")
 		p.expr(t.args[1])
@@ -185,6 +224,10 @@ func (p *printer) int(t *Term) {
 		p.app("div", t.args...)
 		p.sb.WriteString(")")
 	case OpURem:
+		if t.args[1].IsConst() && (t.args[1].val != 0 || t.args[1].hi != 0) {
+			p.app("mod", t.args...)
+			return
+		}
 		p.sb.WriteString("(ite (= ")
 		p.expr(t.args[1])
 		p.sb.WriteString(" 0) ")
@@ -221,12 +264,51 @@ func (p *printer) int(t *Term) {
 			fmt.Fprintf(p.sb, " %s)", pow2(k))
 			return
 		}
+		if b.IsConst() && w <= 64 && b.val != 0 {
+			tz := 0
+			for v := b.val; v&1 == 0; v >>= 1 {
+				tz++
+			}
+			hiPart := b.val >> uint(tz)
+			if hiPart&(hiPart+1) == 0 {
+				k := 0
+				for v := hiPart; v != 0; v >>= 1 {
+					k++
+				}
+				// ((a div 2^tz) mod 2^k) * 2^tz
+				p.sb.WriteString("(* (mod (div ")
+				p.expr(a)
+				fmt.Fprintf(p.sb, " %s) %s) %s)", pow2(tz), pow2(k), pow2(tz))
+				return
+			}
+		}
+		if b.IsConst() && b.val == 0 {
+			p.sb.WriteString("0")
+			return
+		}
+		if w <= 32 {
+			p.bitwise("and", a, b, w)
+			return
+		}
 		panic(unsupportedEnc{"int encoding: bvand with non-mask operand"})
 	case OpBOr, OpBXor, OpBNot:
+		if t.op != OpBNot && disjointBits(t.args[0], t.args[1]) {
+			// bit fields that cannot overlap: or/xor is addition
+			p.app("+", t.args...)
+			return
+		}
 		if t.op == OpBNot {
 			fmt.Fprintf(p.sb, "(- %s ", new(big.Int).Sub(bigPow2(w), big.NewInt(1)).String())
 			p.expr(t.args[0])
 			p.sb.WriteString(")")
+			return
+		}
+		if w <= 32 {
+			if t.op == OpBOr {
+				p.bitwise("or", t.args[0], t.args[1], w)
+			} else {
+				p.bitwise("xor", t.args[0], t.args[1], w)
+			}
 			return
 		}
 		panic(unsupportedEnc{"int encoding: " + opNames[t.op]})
@@ -237,6 +319,12 @@ func (p *printer) int(t *Term) {
 		k := int(t.args[1].val)
 		if k >= w {
 			p.sb.WriteString("0")
+			return
+		}
+		if w <= 64 && k < 64 && maybeOnes(t.args[0])<<uint(k)>>uint(k) == maybeOnes(t.args[0]) && maybeOnes(t.args[0])<<uint(k) <= mask(w) {
+			p.sb.WriteString("(* ")
+			p.expr(t.args[0])
+			fmt.Fprintf(p.sb, " %s)", pow2(k))
 			return
 		}
 		p.sb.WriteString("(mod (* ")
@@ -286,9 +374,24 @@ func (p *printer) int(t *Term) {
 		p.signed(t.args[0])
 		fmt.Fprintf(p.sb, " %s)", pow2(w))
 	case OpExtract:
-		p.sb.WriteString("(mod (div ")
-		p.expr(t.args[0])
-		fmt.Fprintf(p.sb, " %s) %s)", pow2(t.p2), pow2(t.p1-t.p2+1))
+		n := t.p1 - t.p2 + 1
+		noMod := t.args[0].sort.W <= 64 && n < 64 && upper(t.args[0])>>uint(t.p2) <= mask(n)
+		switch {
+		case t.p2 == 0 && noMod:
+			p.expr(t.args[0])
+		case t.p2 == 0:
+			p.sb.WriteString("(mod ")
+			p.expr(t.args[0])
+			fmt.Fprintf(p.sb, " %s)", pow2(n))
+		case noMod:
+			p.sb.WriteString("(div ")
+			p.expr(t.args[0])
+			fmt.Fprintf(p.sb, " %s)", pow2(t.p2))
+		default:
+			p.sb.WriteString("(mod (div ")
+			p.expr(t.args[0])
+			fmt.Fprintf(p.sb, " %s) %s)", pow2(t.p2), pow2(n))
+		}
 	case OpConcat:
 		p.sb.WriteString("(+ (* ")
 		p.expr(t.args[0])
